@@ -234,6 +234,7 @@ BINDINGS = collections.OrderedDict([
     ('import-dotted-unused', ['import {N}.sub']),
     ('import-dotted-used', ['import {N}.sub', 'import {N}', 'print({N}.sub)']),
     ('from-import', ['from os import {N}']),
+    ('import-future-module-as', ['import __future__ as {N}']),
     ('from-import-as', ['from os import path as {N}']),
     ('star-import', ['from os import *']),
     ('param', ['def w({N}):', '    pass', 'w(1)']),
